@@ -55,7 +55,7 @@ TLookup ==
          R == MatchingStrict(rules, e.kind, e.path)
          mustDispatch == R # {} /\ AllConvertible(R, e.path) /\ Len(e.path) <= 10
          bad == IF crashed THEN {"Panic"} ELSE
-                (IF \E i \in DOMAIN outs : ~Sound(rules, e.kind, e.path, outs[i]) THEN {"Sound"} ELSE {})
+                (IF (\E i \in DOMAIN outs : ~Sound(rules, e.kind, e.path, outs[i])) \/ ~e.qsame THEN {"Sound"} ELSE {})
                 \cup (IF \E i \in DOMAIN outs : ~Complete(rules, e.kind, e.path, outs[i]) THEN {"Complete"} ELSE {})
                 \cup (IF \E i \in DOMAIN outs : ~LiteralFirst(rules, e.kind, e.path, outs[i]) THEN {"LiteralFirst"} ELSE {})
                 \cup (IF \E i \in DOMAIN e.outs : ~SameOutcome(e.outs[i], e.outs[1]) THEN {"OrderIndep"} ELSE {})
